@@ -4,6 +4,7 @@
 package crash
 
 import (
+	"encoding/json"
 	"fmt"
 	"time"
 
@@ -12,6 +13,8 @@ import (
 	"github.com/element-of-surprise/coercion/workflow/context"
 	"github.com/element-of-surprise/coercion/workflow/storage/sqlite"
 	"github.com/google/uuid"
+	zsqlite "zombiezen.com/go/sqlite"
+	"zombiezen.com/go/sqlite/sqlitex"
 
 	"verifharness/internal/eng"
 	"verifharness/internal/plug"
@@ -157,5 +160,85 @@ func (r *Restored) Recover(id uuid.UUID, watchdog time.Duration, opts ...coercio
 		eng.Quiesce(r.Log, 10*time.Millisecond, 5*time.Second)
 	}
 	out.Events = r.Log.Snapshot()
+	return out
+}
+
+// StateSig returns a signature of the durable state of the whole store: per row of every table its id, status and
+// (for actions) the number of stored attempts and whether each has an error / an end time. Two stores with the same signature are recovered the same way (recovery
+// looks at statuses and attempts, not at the exact times).
+func StateSig(v *sqlite.Vault) (string, error) {
+	ctx := context.Background()
+	conn, err := v.Pool().Take(ctx)
+	if err != nil {
+		return "", err
+	}
+	defer v.Pool().Put(conn)
+	h := uint64(1469598103934665603)
+	mix := func(s string) {
+		for i := 0; i < len(s); i++ {
+			h ^= uint64(s[i])
+			h *= 1099511628211
+		}
+		h ^= 0xff
+		h *= 1099511628211
+	}
+	for _, q := range []string{
+		"SELECT id, state_status, state_end != 0 AS e, '' AS a FROM plans ORDER BY id",
+		"SELECT id, state_status, 0 AS e, '' AS a FROM blocks ORDER BY id",
+		"SELECT id, state_status, 0 AS e, '' AS a FROM checks ORDER BY id",
+		"SELECT id, state_status, 0 AS e, '' AS a FROM sequences ORDER BY id",
+		"SELECT id, state_status, 0 AS e, coalesce(attempts, '') AS a FROM actions ORDER BY id",
+	} {
+		err := sqlitex.Execute(conn, q, &sqlitex.ExecOptions{ResultFunc: func(stmt *zsqlite.Stmt) error {
+			mix(stmt.ColumnText(0))
+			mix(fmt.Sprint(stmt.ColumnInt64(1), stmt.ColumnInt64(2)))
+			mix(attemptsClass(stmt.ColumnText(3)))
+			return nil
+		}})
+		if err != nil {
+			return "", err
+		}
+	}
+	return fmt.Sprintf("%016x", h), nil
+}
+
+// Apply executes update number x of cap on the vault (used to step through second-crash states cheaply).
+func (r *Restored) Apply(cap *sqlite.CaptureStmts, x int) error {
+	ctx := context.Background()
+	conn, err := r.Vault.Pool().Take(ctx)
+	if err != nil {
+		return err
+	}
+	defer r.Vault.Pool().Put(conn)
+	st := cap.Stmt(x)
+	s, err := st.Prepare(conn)
+	if err != nil {
+		return err
+	}
+	_, err = s.Step()
+	return err
+}
+
+// attemptsClass abstracts the stored attempts of an action (a JSON array of JSON-encoded attempts) to what recovery
+// looks at: how many there are, and per attempt whether it has an error and an end time.
+func attemptsClass(blob string) string {
+	if blob == "" {
+		return "0"
+	}
+	var raws [][]byte
+	if err := json.Unmarshal([]byte(blob), &raws); err != nil {
+		return "?" + blob
+	}
+	out := fmt.Sprint(len(raws))
+	for _, raw := range raws {
+		var a struct {
+			Err any
+			End time.Time
+		}
+		if err := json.Unmarshal(raw, &a); err != nil {
+			return "?" + blob
+		}
+		out += fmt.Sprintf("|%v,%v", a.Err != nil, !a.End.IsZero())
+	}
 	return out
 }
